@@ -3,6 +3,7 @@ import QP.Proofs.PTTop
 import QP.Proofs.PTReverse
 import QP.Proofs.PTTopW
 import QP.Proofs.PTTop2W
+import QP.Proofs.PTTop3W
 import Mathlib.Tactic.Linarith
 /-!
 # C02 — measurement windows of a program are the declared windows in absolute time
@@ -23,23 +24,23 @@ open QP.PT
 
 /-- **windows (partial)**: the windows of the compiled program are, as a multiset, the windows the template
 denotes — one per execution of the declaring node, at execution start + begin, under the mapped name. -/
-theorem windows_correct_partial {pt : PT} (hs : Stage2 pt) (params : List (String × Rat))
+theorem windows_correct_partial {pt : PT} (hs : Stage3R pt) (params : List (String × Rat))
     (mm : Option (List (MName × Option MName))) (cm : List (Chan × Option Chan)) (prog : Loop) (P : Pulse)
     (hprog : createProgram pt params mm cm [] = .ok (some prog))
-    (hden : denoteTop pt params mm cm = .ok P) (hpos : prog.allPos) :
+    (hden : denoteTop pt params mm cm = .ok P) :
     prog.windows.Perm P.windows :=
-  (createProgram_rel_basic hs.basic params mm cm prog P hprog hden hpos).2.2.1
+  (createProgram_relWT_basic hs.basic params mm cm (some prog) P hprog hden).2
 
 /-- **windows incl. time reversal (partial)**: for the stage-1 subset extended by `TimeReversalPT` (`Stage1R`),
 without any positivity assumption: the program's windows are the denoted windows — inside a time reversed part
 mirrored about that part's duration —, and if no program is produced nothing is denoted either. -/
-theorem windows_correct_reversal_partial {pt : PT} (hs : Stage2R pt) (params : List (String × Rat))
+theorem windows_correct_reversal_partial {pt : PT} (hs : Stage3R pt) (params : List (String × Rat))
     (mm : Option (List (MName × Option MName))) (cm : List (Chan × Option Chan)) (prog? : Option Loop) (P : Pulse)
     (hprog : createProgram pt params mm cm [] = .ok prog?) (hden : denoteTop pt params mm cm = .ok P) :
     match prog? with
     | some prog => prog.windows.Perm P.windows
     | none => P.windows = [] := by
-  have := createProgram_relW_basic hs.basic params mm cm prog? P hprog hden
+  have := createProgram_relWT_basic hs.basic params mm cm prog? P hprog hden
   cases prog? with
   | some prog => exact this.2
   | none => exact this.2
